@@ -4,23 +4,34 @@
 (*                                                                         *)
 (*  * the scenario vocabulary (abstract scenario `sc`) and its ONE         *)
 (*    concretisation `Concrete(sc)` (names, values, plug-in records) - the *)
-(*    harness builds the real objects from exactly this record;            *)
-(*  * the REFERENCE meaning of a configuration: `ExpectedHeaders` (fold of *)
-(*    the plug-ins over (per-request over defaults), header names compared *)
-(*    case-insensitively), `ExpectedQuery`, `ExpectedCookies`;             *)
+(*    harness builds the real objects from exactly this record.  A         *)
+(*    scenario is a SESSION: one transport, a sequence of requests (each   *)
+(*    with its own per-request headers), and - for OAuth2 with a refresh   *)
+(*    callback - what the callback returns at each call (a new token, the  *)
+(*    token it was shown, "" or None);                                     *)
+(*  * the REFERENCE meaning: request i carries `ExpectedHeaders` = fold of *)
+(*    the plug-ins over (ITS per-request headers over the CONFIGURED       *)
+(*    defaults), header names compared case-insensitively - nothing of an  *)
+(*    earlier request; the OAuth2 token is the last non-empty token the    *)
+(*    callback delivered, else the configured one (`RefTok`);              *)
 (*  * the IMPLEMENTATION-SHAPED functions of HttpxTransport._prepare_      *)
 (*    headers / request and of the bundled plug-ins (python dicts are      *)
-(*    ordered, case-SENSITIVE; auth runs on a headers-only scratch dict),  *)
-(*    plus the variant "fixed" (case-insensitive merge, plug-ins get the   *)
-(*    real request arguments) used to show the reference is satisfiable;   *)
-(*  * the judge `Failures(cfg, obs)` : the set of failing C17 clauses of   *)
-(*    an observed request (modelled wire or real captured httpx.Request).  *)
+(*    ordered, case-SENSITIVE; auth runs on a headers-only scratch dict;   *)
+(*    the transport's default-headers dict and the plug-in's access_token  *)
+(*    are STATE that lives across requests), plus the variants "fixed"     *)
+(*    (case-insensitive merge, plug-ins get the real request arguments)    *)
+(*    and "aliased_defaults" (a deliberately broken design used to show    *)
+(*    that the isolation properties bind);                                 *)
+(*  * the judge `Failures(view, obs)` / `SessionFailures(cfg, obsSeq)`.    *)
 (*                                                                         *)
 (* A "dict" is a sequence of <<key, value>> pairs in insertion order.      *)
-(* An observation is                                                       *)
+(* An observation (one per request of the session) is                      *)
 (*   [headers : Seq(<<raw name, lower-case name, value>>),                 *)
 (*    query, cookies : Seq(<<name, value>>), body : STRING,                *)
-(*    refresh : Seq(STRING)   arguments the refresh callback was called w/ *)
+(*    refresh : Seq(STRING)   what the refresh callback was shown during   *)
+(*                            this request                                 *)
+(*    defaults : Seq(<<name, value>>)  the dict that was passed as         *)
+(*                            default_headers=, read AFTER the request     *)
 (*    err : STRING]           "none" or the exception type                 *)
 (***************************************************************************)
 EXTENDS Naturals, Sequences, FiniteSets, SequencesExt, FiniteSetsExt
@@ -37,8 +48,12 @@ Lower(n) ==
     [] n = "X-Client-ID"   -> "x-client-id"
     [] OTHER               -> n          \* every other name of the vocabulary is lower-case already
 
-Pats  == {"disjoint", "equal", "casevar"}
-Kinds == {"B", "KH", "KQ", "KC", "H", "O", "OR"}
+IdxStr(i) == CASE i = 1 -> "1" [] i = 2 -> "2" [] i = 3 -> "3" [] OTHER -> "4"
+
+Pats     == {"disjoint", "equal", "casevar"}
+Kinds    == {"B", "KH", "KQ", "KC", "H", "O", "OR"}
+ReqPats  == {"none", "disjoint", "equal", "casevar"}     \* per-request header name relative to the default X-Tag
+RetKinds == {"new", "same", "empty", "none"}            \* what the refresh callback returns at one call
 
 \* ---------------------------------------------------------------------------------------------
 \* scenario space
@@ -54,31 +69,46 @@ Wraps(p) == CASE Len(p) = 0 -> {"none"}
 \* the bearer_token= shortcut: alone, or next to one plug-in ("auth takes precedence")
 Shorts(p) == IF Len(p) <= 1 THEN BOOLEAN ELSE {FALSE}
 
-\* <<defaults, per-request>> : per-request header name relative to the default header X-Tag
-DefReq == {<<"none", "none">>, <<"none", "disjoint">>, <<"tag", "none">>, <<"tag", "disjoint">>,
-           <<"tag", "equal">>, <<"tag", "casevar">>}
+\* per-request patterns that make sense for a defaults choice (without X-Tag in the defaults "equal" / "casevar"
+\* are just other disjoint names)
+ReqPatsFor(dflt) == IF dflt = "tag" THEN ReqPats ELSE {"none", "disjoint"}
+ReqSeqs(dflt, n) == [1..n -> ReqPatsFor(dflt)]
 
-\* a caller-supplied Authorization header (what Bearer / OAuth2 / the shortcut write): layer and spelling
+\* a caller-supplied Authorization header (what Bearer / OAuth2 / the shortcut write): layer and spelling; the
+\* per-request one is passed with the FIRST request of the session only
 CallerAuth == {"none", "def-equal", "def-casevar", "req-equal", "req-casevar"}
 
 InSeq(x, s) == \E i \in DOMAIN s : s[i] = x
 \* name of the header-located API key relative to the caller's X-Tag
-KeyNames(p, dr) == IF InSeq("KH", p) /\ dr[1] = "tag" THEN Pats ELSE {"disjoint"}
+KeyNames(p, dflt) == IF InSeq("KH", p) /\ dflt = "tag" THEN Pats ELSE {"disjoint"}
 \* extra header of HeadersAuth relative to Authorization
 HdrNames(p) == IF InSeq("H", p) THEN Pats ELSE {"disjoint"}
+\* refresh-callback scripts: varied only when OAuth2-with-refresh is configured
+AllNew(n) == [i \in 1..n |-> "new"]
+RetSeqs(p, n) == IF InSeq("OR", p) THEN [1..n -> RetKinds] ELSE {AllNew(n)}
 
-ScenarioOK(s, max) ==
-  /\ s.plugs \in PlugSeqs(max)
+ScenarioOK(s, maxPlugs, maxReqs) ==
+  /\ s.plugs \in PlugSeqs(maxPlugs)
   /\ s.wrap \in Wraps(s.plugs) /\ s.short \in Shorts(s.plugs)
-  /\ <<s.dflt, s.req>> \in DefReq /\ s.ca \in CallerAuth
-  /\ s.kn \in KeyNames(s.plugs, <<s.dflt, s.req>>) /\ s.hn \in HdrNames(s.plugs)
+  /\ s.dflt \in {"none", "tag"} /\ Len(s.reqs) \in 1..maxReqs /\ s.reqs \in ReqSeqs(s.dflt, Len(s.reqs))
+  /\ s.rets \in RetSeqs(s.plugs, Len(s.reqs))
+  /\ s.ca \in CallerAuth
+  /\ s.kn \in KeyNames(s.plugs, s.dflt) /\ s.hn \in HdrNames(s.plugs)
   /\ s.params \in BOOLEAN /\ s.cookies \in BOOLEAN /\ s.body \in BOOLEAN
 
 \* ---------------------------------------------------------------------------------------------
 \* concretisation (the only place where names and values are chosen)
 
+\* what the callback returns at its i-th call: a fresh token, "<same>" (the worker returns the token it was shown),
+\* "" or "<none>" (the worker returns None)
+RetValue(kind, i) == CASE kind = "new"   -> "tok-r" \o IdxStr(i)
+                       [] kind = "same"  -> "<same>"
+                       [] kind = "empty" -> ""
+                       [] kind = "none"  -> "<none>"
+
 PluginOf(k, sc) ==
-  LET base == [kind |-> "", loc |-> "header", name |-> "", val |-> "", hdrs |-> <<>>, refresh |-> FALSE, newval |-> ""] IN
+  LET base == [kind |-> "", loc |-> "header", name |-> "", val |-> "", hdrs |-> <<>>, refresh |-> FALSE,
+               rets |-> <<>>, newval |-> "", toks |-> {}] IN
   CASE k = "B"  -> [base EXCEPT !.kind = "bearer", !.name = "Authorization", !.val = "tok-b"]
     [] k = "KH" -> [base EXCEPT !.kind = "apikey", !.val = "key-h",
                                 !.name = CASE sc.kn = "disjoint" -> "X-Custom-Key"
@@ -93,39 +123,68 @@ PluginOf(k, sc) ==
                                             [] sc.hn = "casevar"  -> <<<<"authorization", "h-auth">>>>)]
     [] k = "O"  -> [base EXCEPT !.kind = "oauth2", !.name = "Authorization", !.val = "tok-o"]
     [] k = "OR" -> [base EXCEPT !.kind = "oauth2", !.name = "Authorization", !.val = "tok-r0", !.refresh = TRUE,
-                                !.newval = "tok-r1"]
+                                !.rets = [i \in DOMAIN sc.rets |-> RetValue(sc.rets[i], i)],
+                                \* every token text this plug-in could ever put after "Bearer " (right or wrong)
+                                !.toks = {"tok-r0", "", "None", "<none>"} \cup {"tok-r" \o IdxStr(i) : i \in DOMAIN sc.rets}]
 
 CallerAuthPair(sc, layer) ==
   CASE sc.ca = layer \o "-equal"   -> <<<<"Authorization", "caller-auth">>>>
     [] sc.ca = layer \o "-casevar" -> <<<<"authorization", "caller-auth">>>>
     [] OTHER                       -> <<>>
 
+\* per-request headers of the i-th request: values carry the request number, so a value that shows up in a later
+\* request is recognisable as a leak
+ReqHeadersOf(sc, i) ==
+  (CASE sc.reqs[i] = "none"     -> <<>>
+     [] sc.reqs[i] = "disjoint" -> <<<<"X-Req", "r" \o IdxStr(i) \o "-only">>>>
+     [] sc.reqs[i] = "equal"    -> <<<<"X-Tag", "r" \o IdxStr(i) \o "-tag">>>>
+     [] sc.reqs[i] = "casevar"  -> <<<<"x-tag", "r" \o IdxStr(i) \o "-tag">>>>)
+  \o (IF i = 1 THEN CallerAuthPair(sc, "req") ELSE <<>>)
+
 Concrete(sc) ==
   [defaults   |-> (IF sc.dflt = "tag" THEN <<<<"X-Tag", "d-tag">>, <<"X-Def", "d-only">>>> ELSE <<>>)
                     \o CallerAuthPair(sc, "def"),
-   reqHeaders |-> (CASE sc.req = "none"     -> <<>>
-                     [] sc.req = "disjoint" -> <<<<"X-Req", "r-only">>>>
-                     [] sc.req = "equal"    -> <<<<"X-Tag", "r-tag">>>>
-                     [] sc.req = "casevar"  -> <<<<"x-tag", "r-tag">>>>)
-                    \o CallerAuthPair(sc, "req"),
+   requests   |-> [i \in DOMAIN sc.reqs |-> ReqHeadersOf(sc, i)],
    plugins    |-> [i \in DOMAIN sc.plugs |-> PluginOf(sc.plugs[i], sc)],
    wrap       |-> sc.wrap,
    bearer     |-> IF sc.short THEN "tok-s" ELSE "",
    params     |-> IF sc.params THEN <<<<"q", "1">>, <<"page", "2">>>> ELSE <<>>,
    cookies    |-> IF sc.cookies THEN <<<<"sid", "c1">>>> ELSE <<>>,
    body       |-> IF sc.body THEN "payload-1" ELSE ""]
-\* empty defaults => default_headers=None ; empty reqHeaders => no `headers=` argument ; likewise params,
-\* cookies ; body "" => no content= argument
+\* empty defaults => default_headers=None ; empty request headers => no `headers=` argument ; likewise params,
+\* cookies ; body "" => no content= argument.  params / cookies / body are passed with every request of the session.
 
 \* ---------------------------------------------------------------------------------------------
 \* REFERENCE meaning (independent of how the code is organised)
-
-Pairs(d) == {d[i] : i \in DOMAIN d}
 
 \* a dict read case-insensitively: lower-case name -> value of its last entry
 CIMap(d) == [n \in {Lower(d[i][1]) : i \in DOMAIN d} |->
                d[Max({i \in DOMAIN d : Lower(d[i][1]) = n})][2]]
 Over(top, base) == [n \in (DOMAIN top) \cup (DOMAIN base) |-> IF n \in DOMAIN top THEN top[n] ELSE base[n]]
+
+IsRefresh(p) == p.kind = "oauth2" /\ p.refresh
+NoToken(x)   == x \in {"", "<none>"}
+
+\* TokenFresh: the token in force after the i-th call of the callback = the last non-empty token it delivered, else
+\* the configured one ("<same>" = it handed back what it was shown)
+RECURSIVE RefTok(_, _)
+RefTok(p, i) == IF i = 0 THEN p.val
+                ELSE LET prev == RefTok(p, i - 1)
+                         d    == IF p.rets[i] = "<same>" THEN prev ELSE p.rets[i]
+                     IN IF NoToken(d) THEN prev ELSE d
+
+\* the configuration as request i must see it: the CONFIGURED defaults, ITS per-request headers, the plug-ins with the
+\* reference token before (.val) and after (.newval) this request's refresh
+ViewPlugin(p, i) == IF IsRefresh(p) THEN [p EXCEPT !.val = RefTok(p, i - 1), !.newval = RefTok(p, i)] ELSE p
+LowerNames(d) == {Lower(d[i][1]) : i \in DOMAIN d}
+View(cfg, i) ==
+  [defaults   |-> cfg.defaults,
+   reqHeaders |-> cfg.requests[i],
+   plugins    |-> [j \in DOMAIN cfg.plugins |-> ViewPlugin(cfg.plugins[j], i)],
+   bearer     |-> cfg.bearer, params |-> cfg.params, cookies |-> cfg.cookies, body |-> cfg.body,
+   \* header names the other requests of the session use, and the values earlier requests passed
+   others     |-> UNION {LowerNames(cfg.requests[j]) : j \in DOMAIN cfg.requests},
+   earlier    |-> UNION {{cfg.requests[j][m][2] : m \in DOMAIN cfg.requests[j]} : j \in 1..(i - 1)}]
 
 HeaderWrites(p) ==
   CASE p.kind = "bearer"  -> <<<<"Authorization", "Bearer " \o p.val>>>>
@@ -134,20 +193,20 @@ HeaderWrites(p) ==
     [] p.kind = "headers" -> p.hdrs
 
 ShortcutPlugin(tok) == [kind |-> "bearer", loc |-> "header", name |-> "Authorization", val |-> tok, hdrs |-> <<>>,
-                        refresh |-> FALSE, newval |-> ""]
+                        refresh |-> FALSE, rets |-> <<>>, newval |-> "", toks |-> {}]
 \* documented: "If both auth and bearer_token are provided, auth takes precedence"
-Plugs(cfg) == IF cfg.plugins # <<>> THEN cfg.plugins
-              ELSE IF cfg.bearer # "" THEN <<ShortcutPlugin(cfg.bearer)>> ELSE <<>>
+Plugs(v) == IF v.plugins # <<>> THEN v.plugins
+            ELSE IF v.bearer # "" THEN <<ShortcutPlugin(v.bearer)>> ELSE <<>>
 
 RECURSIVE FoldPlugins(_, _)
 FoldPlugins(h, ps) == IF ps = <<>> THEN h ELSE FoldPlugins(Over(CIMap(HeaderWrites(Head(ps))), h), Tail(ps))
 
-ExpectedHeaders(cfg) == FoldPlugins(Over(CIMap(cfg.reqHeaders), CIMap(cfg.defaults)), Plugs(cfg))
+ExpectedHeaders(v) == FoldPlugins(Over(CIMap(v.reqHeaders), CIMap(v.defaults)), Plugs(v))
 
-KeyPairs(cfg, loc) == LET ks == SelectSeq(cfg.plugins, LAMBDA p : p.kind = "apikey" /\ p.loc = loc)
-                      IN [i \in DOMAIN ks |-> <<ks[i].name, ks[i].val>>]
-ExpectedQuery(cfg)   == cfg.params \o KeyPairs(cfg, "query")
-ExpectedCookies(cfg) == cfg.cookies \o KeyPairs(cfg, "cookie")
+KeyPairs(v, loc) == LET ks == SelectSeq(v.plugins, LAMBDA p : p.kind = "apikey" /\ p.loc = loc)
+                    IN [i \in DOMAIN ks |-> <<ks[i].name, ks[i].val>>]
+ExpectedQuery(v)   == v.params \o KeyPairs(v, "query")
+ExpectedCookies(v) == v.cookies \o KeyPairs(v, "cookie")
 
 \* ---------------------------------------------------------------------------------------------
 \* IMPLEMENTATION-SHAPED functions
@@ -162,16 +221,23 @@ HPut(variant, d, k, v) == IF variant = "fixed" THEN PutCI(d, k, v) ELSE Put(d, k
 RECURSIVE HUpdate(_, _, _)
 HUpdate(variant, d, e) == IF e = <<>> THEN d ELSE HUpdate(variant, HPut(variant, d, e[1][1], e[1][2]), Tail(e))
 
-\* 1. prepared_headers = {} ; prepared_headers.update(default_headers)
-StepDefaults(variant, cfg) == HUpdate(variant, <<>>, cfg.defaults)
+\* 1. prepared_headers = {} ; prepared_headers.update(self._default_headers)       (tdefaults = that attribute, STATE)
+StepDefaults(variant, tdefaults) == HUpdate(variant, <<>>, tdefaults)
 \* 2. prepared_headers.update(kwargs["headers"])
-StepPerRequest(variant, cfg, prepared) == HUpdate(variant, prepared, cfg.reqHeaders)
+StepPerRequest(variant, reqHeaders, prepared) == HUpdate(variant, prepared, reqHeaders)
+\* what step 2 leaves in the transport's default-headers dict: nothing as written (prepared is a fresh dict); in the
+\* broken variant prepared IS that dict whenever it is non-empty (`prepared = self._default_headers or {}`)
+DefaultsAfter(variant, tdefaults, prepared) ==
+  IF variant = "aliased_defaults" /\ tdefaults # <<>> THEN prepared ELSE tdefaults
 \* 3. temp_request_args_for_auth = {"headers": prepared_headers.copy()}   (as is: nothing else of the request)
 ScratchOf(variant, cfg, prepared) ==
   IF variant = "fixed" THEN [headers |-> prepared, params |-> cfg.params, cookies |-> cfg.cookies]
   ELSE [headers |-> prepared, params |-> <<>>, cookies |-> <<>>]
 \* OAuth2Auth: new = await refresh_callback(self.access_token); if new and new != access_token: access_token = new
-Refreshed(p) == IF p.newval # "" /\ p.newval # p.val THEN p.newval ELSE p.val
+\* (stored = self.access_token, i = number of this call)
+RefreshStep(p, i, stored) ==
+  LET new == IF p.rets[i] = "<same>" THEN stored ELSE p.rets[i] IN
+  IF ~NoToken(new) /\ new # stored THEN new ELSE stored
 \* plugin.authenticate_request(request_args) ; tok = the plug-in's access_token at that moment
 ApplyPlugin(variant, p, tok, args) ==
   CASE p.kind = "bearer"  -> [args EXCEPT !.headers = HPut(variant, @, "Authorization", "Bearer " \o p.val)]
@@ -186,68 +252,105 @@ StepShortcut(variant, cfg, prepared) == HPut(variant, prepared, "Authorization",
 
 \* request_args = kwargs without headers ; request_args["headers"] = prepared ; client.request(**request_args):
 \* httpx sends every dict entry (case variants are separate entries); as is, params / cookies of the scratch dict
-\* are not part of the request
-WireOf(variant, cfg, headers, args, calls) ==
-  [headers |-> [i \in DOMAIN headers |-> <<headers[i][1], Lower(headers[i][1]), headers[i][2]>>],
-   query   |-> IF variant = "fixed" THEN args.params ELSE cfg.params,
-   cookies |-> IF variant = "fixed" THEN args.cookies ELSE cfg.cookies,
-   body    |-> cfg.body,
-   refresh |-> calls,
-   err     |-> "none"]
+\* are not part of the request.  `defaults` = the transport's default-headers dict after the request.
+WireOf(variant, cfg, headers, args, calls, tdefaults) ==
+  [headers  |-> [i \in DOMAIN headers |-> <<headers[i][1], Lower(headers[i][1]), headers[i][2]>>],
+   query    |-> IF variant = "fixed" THEN args.params ELSE cfg.params,
+   cookies  |-> IF variant = "fixed" THEN args.cookies ELSE cfg.cookies,
+   body     |-> cfg.body,
+   refresh  |-> calls,
+   defaults |-> tdefaults,
+   err      |-> "none"]
 
-RECURSIVE RunPlugins(_, _, _, _)
-RunPlugins(variant, ps, args, calls) ==    \* -> <<args, calls>>
-  IF ps = <<>> THEN <<args, calls>>
-  ELSE LET p == Head(ps)
-           r == p.kind = "oauth2" /\ p.refresh IN
-       RunPlugins(variant, Tail(ps), ApplyPlugin(variant, p, IF r THEN Refreshed(p) ELSE p.val, args),
-                  IF r THEN Append(calls, p.val) ELSE calls)
+RECURSIVE RunPlugins(_, _, _, _, _, _)
+RunPlugins(variant, ps, i, args, stored, calls) ==    \* -> <<args, stored, calls>>
+  IF ps = <<>> THEN <<args, stored, calls>>
+  ELSE LET p == Head(ps) IN
+       IF IsRefresh(p)
+         THEN LET tok == RefreshStep(p, i, stored) IN
+              RunPlugins(variant, Tail(ps), i, ApplyPlugin(variant, p, tok, args), tok, Append(calls, stored))
+         ELSE RunPlugins(variant, Tail(ps), i, ApplyPlugin(variant, p, p.val, args), stored, calls)
 
-\* the whole modelled code path in one expression (the state machine of Transport.tla is checked against it)
-ModelWire(variant, cfg) ==
-  LET prepared == StepPerRequest(variant, cfg, StepDefaults(variant, cfg))
+\* the modelled code path of the i-th request in one expression; st = [tdefaults, stored] is what the transport and
+\* the OAuth2 plug-in remember between requests
+OneRequest(variant, cfg, i, st) ==    \* -> [wire, st]
+  LET prepared == StepPerRequest(variant, cfg.requests[i], StepDefaults(variant, st.tdefaults))
+      td       == DefaultsAfter(variant, st.tdefaults, prepared)
       scratch  == ScratchOf(variant, cfg, prepared) IN
   IF cfg.plugins # <<>> THEN
-       LET r == RunPlugins(variant, cfg.plugins, scratch, <<>>) IN WireOf(variant, cfg, r[1].headers, r[1], r[2])
-  ELSE IF cfg.bearer # "" THEN WireOf(variant, cfg, StepShortcut(variant, cfg, prepared), scratch, <<>>)
-  ELSE WireOf(variant, cfg, prepared, scratch, <<>>)
+       LET r == RunPlugins(variant, cfg.plugins, i, scratch, st.stored, <<>>) IN
+       [wire |-> WireOf(variant, cfg, r[1].headers, r[1], r[3], td), st |-> [tdefaults |-> td, stored |-> r[2]]]
+  ELSE IF cfg.bearer # "" THEN
+       \* the shortcut writes into prepared itself (which, aliased, is the defaults dict)
+       LET h == StepShortcut(variant, cfg, prepared)
+           t == DefaultsAfter(variant, st.tdefaults, h) IN
+       [wire |-> WireOf(variant, cfg, h, scratch, <<>>, t), st |-> [st EXCEPT !.tdefaults = t]]
+  ELSE [wire |-> WireOf(variant, cfg, prepared, scratch, <<>>, td), st |-> [st EXCEPT !.tdefaults = td]]
+
+InitialToken(cfg) == LET rs == SelectSeq(cfg.plugins, IsRefresh) IN IF rs = <<>> THEN "" ELSE rs[1].val
+InitialState(cfg) == [tdefaults |-> cfg.defaults, stored |-> InitialToken(cfg)]
+
+RECURSIVE RunSession(_, _, _, _)
+RunSession(variant, cfg, i, st) ==
+  IF i > Len(cfg.requests) THEN <<>>
+  ELSE LET r == OneRequest(variant, cfg, i, st) IN <<r.wire>> \o RunSession(variant, cfg, i + 1, r.st)
+\* the whole modelled session (the state machine of Transport.tla is checked against it)
+ModelSession(variant, cfg) == RunSession(variant, cfg, 1, InitialState(cfg))
+
+\* RequestIsolation: what request i looks like when NOTHING but the configuration, its own per-request headers and
+\* the token in force reaches it (a transport fresh from its constructor)
+IsolatedWire(variant, cfg, i) ==
+  LET rs == SelectSeq(cfg.plugins, IsRefresh)
+      st == [tdefaults |-> cfg.defaults, stored |-> IF rs = <<>> THEN "" ELSE RefTok(rs[1], i - 1)]
+  IN OneRequest(variant, cfg, i, st).wire
 
 \* ---------------------------------------------------------------------------------------------
-\* the JUDGE : failing clauses of an observation
+\* the JUDGE : failing clauses of one observed request against the view of its position in the session
 
-NoLocus == [header |-> "", overlap |-> "", tail |-> "", location |-> "", found |-> "", arg |-> ""]
+NoLocus == [header |-> "", overlap |-> "", tail |-> "", location |-> "", found |-> "", arg |-> "", origin |-> "",
+            request |-> ""]
 Fail(c, l) == [clause |-> c, locus |-> l]
 
-LowerNames(d) == {Lower(d[i][1]) : i \in DOMAIN d}
-Universe(cfg) == LowerNames(cfg.defaults) \cup LowerNames(cfg.reqHeaders)
-                 \cup UNION {LowerNames(HeaderWrites(Plugs(cfg)[i])) : i \in DOMAIN Plugs(cfg)}
-WritersOf(cfg, n) == {i \in DOMAIN Plugs(cfg) : n \in LowerNames(HeaderWrites(Plugs(cfg)[i]))}
+Universe(v) == LowerNames(v.defaults) \cup LowerNames(v.reqHeaders) \cup v.others
+               \cup UNION {LowerNames(HeaderWrites(Plugs(v)[i])) : i \in DOMAIN Plugs(v)}
+WritersOf(v, n) == {i \in DOMAIN Plugs(v) : n \in LowerNames(HeaderWrites(Plugs(v)[i]))}
 
 EntriesOf(obs, n) == SelectSeq(obs.headers, LAMBDA h : h[2] = n)
 Eff(obs, n)  == LET es == EntriesOf(obs, n) IN [i \in DOMAIN es |-> es[i][3]]     \* the values sent for n, in order
 Raws(obs, n) == LET es == EntriesOf(obs, n) IN {es[i][1] : i \in DOMAIN es}
 
-\* SentEqualsFold : every header of the vocabulary is sent exactly once, with the folded value.
-\* The locus is computed from the observation itself (how many values, how many spellings, is the last one right).
-HeaderFailures(cfg, obs) ==
-  LET exp   == ExpectedHeaders(cfg)
-      plugs == Plugs(cfg)
+\* SentEqualsFold : every header of the vocabulary (including the names other requests of the session use) is sent
+\* exactly once with the folded value, or not at all when nothing contributes it.
+\* The locus is computed from the observation itself: how many values, how many spellings, is the last one right,
+\* does a value of an EARLIER request's per-request headers appear.
+HeaderFailures(v, obs) ==
+  LET exp   == ExpectedHeaders(v)
+      plugs == Plugs(v)
       ExpSeq(n)  == IF n \in DOMAIN exp THEN <<exp[n]>> ELSE <<>>
       Writers(n) == {i \in DOMAIN plugs : n \in LowerNames(HeaderWrites(plugs[i]))}
       Overlap(e, raws) == IF Len(e) = 0 THEN "missing"
                           ELSE IF Cardinality(raws) > 1 THEN "casevar"
                           ELSE IF Len(e) > 1 THEN "equal" ELSE "single"
       TailOf(e, x) == IF Len(e) = 0 THEN "none" ELSE IF x # <<>> /\ e[Len(e)] = x[1] THEN "ok" ELSE "wrong"
+      Origin(e, x) == IF \E i \in DOMAIN e : e[i] \in v.earlier /\ <<e[i]>> # x THEN "earlier-request" ELSE ""
       Clause(n, e) == LET w == Writers(n) IN
                       IF w = {} THEN "C17.header_precedence"
                       ELSE LET p == plugs[Max(w)] IN
-                           IF p.kind = "oauth2" /\ p.refresh /\ e = <<"Bearer " \o p.val>> THEN "C17.token_stale"
-                           ELSE "C17.plugin_order"
+                           IF IsRefresh(p) /\ Len(e) = 1 /\ e[1] \in {"Bearer " \o t : t \in p.toks \cup {p.val}}
+                             THEN "C17.token_stale" ELSE "C17.plugin_order"
+      Found(n, e) == LET w == Writers(n) IN
+                     IF w = {} \/ Len(e) # 1 THEN ""
+                     ELSE LET p == plugs[Max(w)] IN
+                          IF ~IsRefresh(p) THEN ""
+                          ELSE IF e[1] = "Bearer " \o p.val THEN "token-before-refresh"
+                          ELSE IF e[1] \in {"Bearer ", "Bearer None", "Bearer <none>"} THEN "no-token"
+                          ELSE IF e[1] \in {"Bearer " \o t : t \in p.toks} THEN "other-token" ELSE ""
       One(n) == LET e == Eff(obs, n) IN
                 IF e = ExpSeq(n) THEN {}
                 ELSE {Fail(Clause(n, e), [NoLocus EXCEPT !.header = n, !.overlap = Overlap(e, Raws(obs, n)),
-                                                         !.tail = TailOf(e, ExpSeq(n))])}
-  IN UNION {One(n) : n \in Universe(cfg)}
+                                                         !.tail = TailOf(e, ExpSeq(n)), !.found = Found(n, e),
+                                                         !.origin = Origin(e, ExpSeq(n))])}
+  IN UNION {One(n) : n \in Universe(v)}
 
 Where(obs, k) == IF \E i \in DOMAIN obs.headers : obs.headers[i][3] = k THEN "header"
                  ELSE IF \E i \in DOMAIN obs.query : obs.query[i][2] = k THEN "query"
@@ -255,13 +358,13 @@ Where(obs, k) == IF \E i \in DOMAIN obs.headers : obs.headers[i][3] = k THEN "he
 
 \* KeyPlacement : the key value is found in the configured location under the configured name.  A header-located
 \* key that a LATER plug-in legitimately overwrites is not expected on the wire (SentEqualsFold judges that name).
-KeyFailuresOf(cfg, obs, i) ==
-  LET p == cfg.plugins[i]
+KeyFailuresOf(v, obs, i) ==
+  LET p == v.plugins[i]
       inHdr == {j \in DOMAIN obs.headers : obs.headers[j][3] = p.val}
       list  == IF p.loc = "query" THEN obs.query ELSE obs.cookies
       inLst == {j \in DOMAIN list : list[j][2] = p.val} IN
   IF p.loc = "header" THEN
-       IF Max(WritersOf(cfg, Lower(p.name))) # i THEN {}
+       IF Max(WritersOf(v, Lower(p.name))) # i THEN {}
        ELSE IF \E j \in inHdr : obs.headers[j][2] = Lower(p.name) THEN {}
        ELSE IF inHdr # {} THEN {Fail("C17.apikey_name", [NoLocus EXCEPT !.location = "header",
                                                            !.found = obs.headers[Min(inHdr)][2]])}
@@ -272,40 +375,73 @@ KeyFailuresOf(cfg, obs, i) ==
                                                            !.found = list[Min(inLst)][1]])}
        ELSE {Fail("C17.apikey_location", [NoLocus EXCEPT !.location = p.loc, !.found = Where(obs, p.val)])}
 
-KeyIdx(cfg) == {i \in DOMAIN cfg.plugins : cfg.plugins[i].kind = "apikey"}
-KeyFailures(cfg, obs) == UNION {KeyFailuresOf(cfg, obs, i) : i \in KeyIdx(cfg)}
+KeyIdx(v) == {i \in DOMAIN v.plugins : v.plugins[i].kind = "apikey"}
+KeyFailures(v, obs) == UNION {KeyFailuresOf(v, obs, i) : i \in KeyIdx(v)}
 
 \* CallerArgsUntouched : what is sent besides the API keys is exactly what the caller passed
-KeyVals(cfg) == {cfg.plugins[i].val : i \in KeyIdx(cfg)}
-CallerPart(cfg, list) == SelectSeq(list, LAMBDA e : e[2] \notin KeyVals(cfg))
-CallerFailures(cfg, obs) ==
-  (IF CallerPart(cfg, obs.query) # cfg.params
+KeyVals(v) == {v.plugins[i].val : i \in KeyIdx(v)}
+CallerPart(v, list) == SelectSeq(list, LAMBDA e : e[2] \notin KeyVals(v))
+CallerFailures(v, obs) ==
+  (IF CallerPart(v, obs.query) # v.params
      THEN {Fail("C17.caller_params_changed", [NoLocus EXCEPT !.arg = "params"])} ELSE {})
-  \cup (IF CallerPart(cfg, obs.cookies) # cfg.cookies
+  \cup (IF CallerPart(v, obs.cookies) # v.cookies
      THEN {Fail("C17.caller_params_changed", [NoLocus EXCEPT !.arg = "cookies"])} ELSE {})
-  \cup (IF obs.body # cfg.body
+  \cup (IF obs.body # v.body
      THEN {Fail("C17.body_changed", [NoLocus EXCEPT !.found = IF obs.body = "" THEN "empty" ELSE "different"])}
      ELSE {})
 
-\* TokenFresh : a configured refresh callback is consulted (the header value itself is judged by HeaderClause)
-RefreshIdx(cfg) == {i \in DOMAIN cfg.plugins : cfg.plugins[i].kind = "oauth2" /\ cfg.plugins[i].refresh}
-TokenFailures(cfg, obs) ==
-  IF RefreshIdx(cfg) # {} /\ obs.refresh = <<>>
-    THEN {Fail("C17.token_stale", [NoLocus EXCEPT !.found = "callback-not-called"])} ELSE {}
+\* TokenFresh : a configured refresh callback is consulted at every request and is shown the token in force (the
+\* header value itself is judged by HeaderFailures)
+RefreshIdx(v) == {i \in DOMAIN v.plugins : IsRefresh(v.plugins[i])}
+TokenFailures(v, obs) ==
+  IF RefreshIdx(v) = {} THEN {}
+  ELSE IF obs.refresh = <<>> THEN {Fail("C17.token_stale", [NoLocus EXCEPT !.found = "callback-not-called"])}
+  ELSE LET p == v.plugins[CHOOSE i \in RefreshIdx(v) : TRUE] IN
+       IF obs.refresh[1] # p.val
+         THEN {Fail("C17.token_stale", [NoLocus EXCEPT !.found = IF obs.refresh[1] \in {"", "<none>"}
+                                                                   THEN "callback-shown-no-token"
+                                                                   ELSE "callback-shown-other-token"])}
+         ELSE {}
 
-Failures(cfg, obs) ==
+\* DefaultsUnchanged : serving a request leaves the transport's configuration (the default-headers dict) as configured
+DefaultsFailures(v, obs) ==
+  IF obs.defaults # v.defaults
+    THEN {Fail("C17.defaults_mutated", [NoLocus EXCEPT !.arg = "default_headers",
+                                                       !.found = IF Len(obs.defaults) > Len(v.defaults)
+                                                                   THEN "entries-added" ELSE "entries-changed"])}
+    ELSE {}
+
+Failures(v, obs) ==
   IF obs.err # "none" THEN {Fail("C17.no_request", [NoLocus EXCEPT !.found = obs.err])}
-  ELSE HeaderFailures(cfg, obs) \cup KeyFailures(cfg, obs) \cup CallerFailures(cfg, obs) \cup TokenFailures(cfg, obs)
+  ELSE HeaderFailures(v, obs) \cup KeyFailures(v, obs) \cup CallerFailures(v, obs) \cup TokenFailures(v, obs)
+       \cup DefaultsFailures(v, obs)
 
-\* how often each clause's antecedent was evaluated for this configuration (vacuity accounting)
+\* every request of the session is judged against the view of its position; the locus names the position
+SessionFailures(cfg, obsSeq) ==
+  IF Len(obsSeq) # Len(cfg.requests)
+    THEN {Fail("C17.no_request", [NoLocus EXCEPT !.found = "requests-missing"])}
+    ELSE UNION {{Fail(f.clause, [f.locus EXCEPT !.request = IdxStr(i)]) : f \in Failures(View(cfg, i), obsSeq[i])} :
+                  i \in DOMAIN obsSeq}
+
+\* how often each clause's antecedent was evaluated for this session (vacuity accounting)
 Antecedents(cfg) ==
-  [headers |-> Cardinality({n \in Universe(cfg) : WritersOf(cfg, n) = {}}),
-   plugin_headers |-> Cardinality({n \in Universe(cfg) : WritersOf(cfg, n) # {}}),
-   keys |-> Cardinality(KeyIdx(cfg)), refresh |-> Cardinality(RefreshIdx(cfg)),
-   params |-> Len(cfg.params), cookies |-> Len(cfg.cookies), body |-> IF cfg.body = "" THEN 0 ELSE 1]
+  LET V(i) == View(cfg, i)
+      n    == Len(cfg.requests)
+      Sum(f) == FoldLeft(LAMBDA a, b : a + b, 0, f) IN
+  [headers |-> Sum([i \in 1..n |-> Cardinality({m \in Universe(V(i)) : WritersOf(V(i), m) = {}})]),
+   plugin_headers |-> Sum([i \in 1..n |-> Cardinality({m \in Universe(V(i)) : WritersOf(V(i), m) # {}})]),
+   keys |-> n * Cardinality(KeyIdx(V(1))), refresh |-> n * Cardinality(RefreshIdx(V(1))),
+   params |-> n * Len(cfg.params), cookies |-> n * Len(cfg.cookies), body |-> IF cfg.body = "" THEN 0 ELSE n,
+   defaults |-> IF cfg.defaults = <<>> THEN 0 ELSE n,
+   later |-> n - 1,                                   \* requests that have a predecessor (isolation antecedent)
+   noop_refresh |-> IF RefreshIdx(V(1)) = {} THEN 0   \* callback answers that must leave the token alone
+                    ELSE LET p == cfg.plugins[CHOOSE i \in RefreshIdx(V(1)) : TRUE]
+                         IN Cardinality({i \in DOMAIN p.rets : NoToken(p.rets[i]) \/ p.rets[i] = "<same>"})]
 
 \* the model and an observation agree on everything the judge looks at (else: DRIFT, never a failure)
-Project(cfg, obs) == [headers |-> SelectSeq(obs.headers, LAMBDA h : h[2] \in Universe(cfg)),
-                      query |-> obs.query, cookies |-> obs.cookies, body |-> obs.body, refresh |-> obs.refresh,
-                      err |-> obs.err]
+Project(v, obs) == [headers |-> SelectSeq(obs.headers, LAMBDA h : h[2] \in Universe(v)),
+                    query |-> obs.query, cookies |-> obs.cookies, body |-> obs.body, refresh |-> obs.refresh,
+                    defaults |-> obs.defaults, err |-> obs.err]
+ProjectSession(cfg, obsSeq) == [i \in DOMAIN obsSeq |->
+                                  IF i \in DOMAIN cfg.requests THEN Project(View(cfg, i), obsSeq[i]) ELSE obsSeq[i]]
 =============================================================================
